@@ -54,7 +54,7 @@ class Executor:
         self.fwd = 0                    # None = undefined
         self.adj = 0
         self.work_ics = False
-        self.work_deps = set()
+        self.work_deps = None           # interval (lo, hi) of steps whose adjoint dependencies are in WORK
         self.store = {RAM: {}, DISK: {}}
         self.S_EF = None
         self.passes = 0
@@ -113,8 +113,9 @@ class Executor:
             self.v("C03", "ram_budget", "held=%d budget=%s" % (nr, self.budget(RAM)))
         if nd > self.budget(DISK):
             self.v("C03", "disk_budget", "held=%d budget=%s" % (nd, self.budget(DISK)))
-        if not self.single_memory and len(self.work_deps) > 1:
-            self.v("C12", "work_deps_at_most_one_step", "deps=%d" % len(self.work_deps))
+        if not self.single_memory and self.work_deps is not None and \
+                self.work_deps[1] - self.work_deps[0] > 1:
+            self.v("C12", "work_deps_at_most_one_step", "deps=[%d,%d)" % self.work_deps)
 
     def _forward(self, a):
         n0, n1, wi, wa, st = a.args
@@ -157,7 +158,14 @@ class Executor:
         self.forwards_emitted += 1
         self.fwd = n1c
         self.work_ics = False
-        self.work_deps = set(range(n0, n1c)) if (st is WORK and wa) else set()
+        if st is WORK and wa and n1c > n0:
+            if self.single_memory and self.work_deps is not None and self.work_deps[1] == n0:
+                # SingleMemoryStorageSchedule keeps the dependencies of all steps (C12 exemption)
+                self.work_deps = (self.work_deps[0], n1c)
+            else:
+                self.work_deps = (n0, n1c)
+        else:
+            self.work_deps = None
         if st in (RAM, DISK):
             if n0 in self.store[st]:
                 self.v("C01", "no_overwrite", "step=%d storage=%s" % (n0, st.name))
@@ -188,13 +196,12 @@ class Executor:
         if n1 != self.e:
             self.v("C02", "reverse_starts_at_adjoint_position",
                    "n1=%d e=%d" % (n1, self.e))
-        missing = [s for s in range(n0, n1) if s not in self.work_deps]
-        if missing:
-            self.v("C01", "reverse_deps_in_work", "missing=%s" % missing[:5])
+        if self.work_deps is None or not (self.work_deps[0] <= n0 and n1 <= self.work_deps[1]):
+            self.v("C01", "reverse_deps_in_work", "needs [%d,%d) work holds %s" % (n0, n1, self.work_deps))
         self.adj += n1 - n0
         self.rev_steps += n1 - n0
         if c:
-            self.work_deps = set()
+            self.work_deps = None           # interval (lo, hi) of steps whose adjoint dependencies are in WORK
 
     def _load(self, a, move):
         n, f, t = a.args
@@ -221,7 +228,7 @@ class Executor:
         if t is WORK:
             if self.work_ics:
                 self.v("C12", "load_while_unused_restart_data_in_work", repr(a.args))
-            if self.work_deps:
+            if self.work_deps is not None:
                 self.v("C12", "load_while_adj_deps_in_work", repr(a.args))
             if kind == ICS:
                 if hi < self.e:
@@ -231,7 +238,7 @@ class Executor:
                 self.work_ics = True
             else:
                 self.fwd = None
-                self.work_deps = set(range(lo, hi))
+                self.work_deps = (lo, hi) if hi > lo else None
         elif t in (RAM, DISK):
             if n in self.store[t]:
                 self.v("C01", "no_overwrite", "step=%d storage=%s" % (n, t.name))
